@@ -170,6 +170,24 @@ theorem NodesOk.addNode {c c1 : Cell R} (h : NodesOk c) {p m : V3 R} (hc1 : c1 =
   · rw [hu, hv]; simp
   · rw [hu]; simp
 
+/-- the number of node slots after `add_node` -/
+def sizeAfterAdd (free : List Nat) (n : Nat) : Nat :=
+  match free with
+  | _ :: _ => n
+  | [] => n + 1
+
+theorem addNode_size (c : Cell R) (p m : V3 R) :
+    (addNode c p m).1.nodes.size = sizeAfterAdd c.freeNodes c.nodes.size := by
+  unfold addNode sizeAfterAdd
+  cases c.freeNodes with
+  | nil => simp
+  | cons i rest => simp [Array.set!_eq_setIfInBounds]
+
+/-- what one logged operation of `refine_mesh` does to (free node queue, number of node slots): a split takes one slot; a
+    collapse takes one slot and then releases `a` and `b`, in that order (the bookkeeping `TissueR.replayOp` replays) -/
+def nodeOp (st : List Nat × Nat) (isSplit : Bool) (a b : Nat) : List Nat × Nat :=
+  if isSplit then (st.1.tail, sizeAfterAdd st.1 st.2) else (b :: a :: st.1.tail, sizeAfterAdd st.1 st.2)
+
 /-- writing a used node record into a slot keeps the flags -/
 theorem usedN_setUsed (c : Cell R) (i : Nat) (old v : Node R) (ho : c.nodes[i]? = some old) (hv : v.used = old.used)
     (j : Nat) : usedN ({ c with nodes := c.nodes.set! i v } : Cell R) j = usedN c j := by
@@ -327,6 +345,182 @@ theorem CopyOk.nodes_used {c : Cell R} {x : Edge} (h : CopyOk c x) (hN : NodesOk
     obtain ⟨a, b⟩ := hasNode_of_sideKey hq
     exact ⟨hN.live p t _ ht a, hN.live p t _ ht b⟩
 
+/-! ## 3b. every unused face slot is queued -/
+
+/-- the converse of `FaceFreeOk`: an unused face slot is in the free queue (so `rebase`, which drops exactly the queued
+    slots, leaves no unused slot behind for `generate_edge_set`) -/
+def FreeFull (c : Cell R) : Prop := ∀ i : Nat, (slots c)[i]? = some none → i ∈ c.freeFaces
+
+theorem FreeFull.congr {c c' : Cell R} (hs : slots c' = slots c) (hf : c'.freeFaces = c.freeFaces) (h : FreeFull c) :
+    FreeFull c' := by
+  intro i hi; rw [hf]; rw [hs] at hi; exact h i hi
+
+theorem deleteFace_full {c c' : Cell R} {fid : Nat} (h : deleteFace c fid = .ok c') (hF : FreeFull c) : FreeFull c' := by
+  obtain ⟨f, s3, hf, hc⟩ := deleteFace_eq h
+  have hS : slots c' = (slots c).set fid none := by
+    rw [hc]; show slotsA (c.faces.set! fid _) = _
+    rw [slotsA_set]; rfl
+  have hFF : c'.freeFaces = fid :: c.freeFaces := by rw [hc]
+  intro i hi
+  rw [hFF]
+  by_cases hif : i = fid
+  · exact List.mem_cons.2 (Or.inl hif)
+  · refine List.mem_cons_of_mem _ (hF i ?_)
+    rw [hS, List.getElem?_set_ne (Ne.symm hif)] at hi; exact hi
+
+theorem addFace_full {fn : Fn R} {c c' : Cell R} {a b d fid : Nat} (h : addFace fn c a b d = .ok (c', fid))
+    (hF : FreeFull c) : FreeFull c' := by
+  obtain ⟨s6, ⟨rest, hff, hc⟩ | ⟨hff, hfid, hc⟩⟩ := addFace_eq h
+  · obtain ⟨fs, he, hs⟩ := updFaceGeom_eq fn _ fid
+    rw [he] at hc
+    have hS : slots c' = (slots c).set fid (some (a, b, d)) := by
+      rw [hc]; show slotsA fs = _
+      rw [hs]; show slotsA (c.faces.set! fid _) = _
+      rw [slotsA_set]; rfl
+    have hFF : c'.freeFaces = rest := by rw [hc]
+    intro i hi
+    rw [hFF]
+    by_cases hif : i = fid
+    · subst hif
+      rw [hS, List.getElem?_set] at hi
+      simp only [if_true] at hi
+      split at hi <;> cases hi
+    · rw [hS, List.getElem?_set_ne (Ne.symm hif)] at hi
+      have := hF i hi
+      rw [hff] at this
+      rcases List.mem_cons.1 this with hh | hh
+      · exact absurd hh hif
+      · exact hh
+  · obtain ⟨fs, he, hs⟩ := updFaceGeom_eq fn _ fid
+    rw [he] at hc
+    have hS : slots c' = slots c ++ [some (a, b, d)] := by
+      rw [hc]; show slotsA fs = _
+      rw [hs]; show slotsA (c.faces.push _) = _
+      rw [slotsA_push]; rfl
+    intro i hi
+    exfalso
+    rw [hS] at hi
+    by_cases hlt : i < (slots c).length
+    · rw [List.getElem?_append_left hlt] at hi
+      have := hF i hi
+      rw [hff] at this; cases this
+    · rw [List.getElem?_append_right (by omega)] at hi
+      have h0 : i - (slots c).length = 0 ∨ 0 < i - (slots c).length := by omega
+      rcases h0 with h0 | h0
+      · rw [h0] at hi; cases hi
+      · rw [List.getElem?_eq_none (by simp; omega)] at hi; cases hi
+
+/-! ## 4. auxiliary facts about the live triangles -/
+
+/-- the two triangles of an edge are found by `findDir` -/
+theorem findDirs_of_edgeFaces {c : Cell R} {e : Edge} (hInv : Inv (abs c)) (hab : e.n1 ≠ e.n2)
+    (he : EdgeFaces c e e.n1 e.n2) :
+    ∃ t1 t2, findDir (abs c) e.n1 e.n2 = some t1 ∧ findDir (abs c) e.n2 e.n1 = some t2 := by
+  obtain ⟨g1, g2, t1, t2, hg1, hg2, hg12, hs1, hs2, h1a, h1b, h2a, h2b⟩ := he
+  have hT0 := absM_two_slots hg12 hs1 hs2
+  rcases edge_dirs hInv hT0 hab h1a h1b h2a h2b with ⟨d1, d2⟩ | ⟨d1, d2⟩
+  · obtain ⟨F1, F2⟩ := find_of_decomp hInv.simple hT0 d1 d2
+    exact ⟨_, _, F1, F2⟩
+  · obtain ⟨F1, F2⟩ := find_of_decomp hInv.simple (hT0.trans (Multiset.cons_swap _ _ _)) d2 d1
+    exact ⟨_, _, F1, F2⟩
+
+theorem hasNode_canonTri (t : Tri) (v : Nat) : hasNode (canonTri t) v = hasNode t v := by
+  obtain ⟨x, y, z⟩ := t
+  have h1 := hasNode_iff (canonTri (x, y, z)) v
+  have h2 := hasNode_iff (x, y, z) v
+  rw [Bool.eq_iff_iff, h1, h2]
+  rcases canonTri_cases (x, y, z) with h | h | h <;> rw [h] <;> dsimp only <;> tauto
+
+theorem nodes_of_triEquiv {S T : List Tri} (h : TriEquiv S T) {t : Tri} (ht : t ∈ S) :
+    ∃ t0 ∈ T, ∀ v, hasNode t0 v = hasNode t v := by
+  have : canonTri t ∈ T.map canonTri := (List.Perm.mem_iff h).1 (List.mem_map.2 ⟨t, ht, rfl⟩)
+  obtain ⟨t0, ht0, he⟩ := List.mem_map.1 this
+  exact ⟨t0, ht0, fun v => by rw [← hasNode_canonTri t0, he, hasNode_canonTri]⟩
+
+theorem vertsF_triEquiv {S T : List Tri} (h : TriEquiv S T) : vertsF S = vertsF T := by
+  ext x
+  rw [ce_mem_vertsF, ce_mem_vertsF]
+  constructor
+  · rintro ⟨t, ht, hx⟩
+    obtain ⟨t0, ht0, hn⟩ := nodes_of_triEquiv h ht
+    exact ⟨t0, ht0, by rw [hn]; exact hx⟩
+  · rintro ⟨t, ht, hx⟩
+    obtain ⟨t0, ht0, hn⟩ := nodes_of_triEquiv h.symm ht
+    exact ⟨t0, ht0, by rw [hn]; exact hx⟩
+
 end
+
+/-- the vertices after a collapse: the two end nodes are replaced by the new node (the set computed inside
+    `Surface.collapse_verts_card`) -/
+theorem collapse_verts {T : List Tri} (h : Inv T) {a b i : Nat} {t1 t2 : Tri}
+    (h1 : findDir T a b = some t1) (h2 : findDir T b a = some t2)
+    (hl : LinkCond T a b (opp t1 a b) (opp t2 b a)) (hi : Fresh T i) :
+    vertsF (collapseT T a b i) = insert i (((vertsF T).erase a).erase b) := by
+  obtain ⟨hn, hs, hc⟩ := h
+  obtain ⟨ht1, hd1⟩ := ce_findDir_some h1
+  obtain ⟨ht2, hd2⟩ := ce_findDir_some h2
+  obtain ⟨hm1, hv1, hab, hbc, hca⟩ := ce_hasDir_spec (hn t1 ht1) hd1
+  obtain ⟨hm2, hv2, -, had, hdb⟩ := ce_hasDir_spec (hn t2 ht2) hd2
+  have hcd := hl.1
+  generalize opp t1 a b = c at *
+  generalize opp t2 b a = d at *
+  have hswap : ∀ x y, (x, y) ∈ heM T → (y, x) ∈ heM T := by
+    intro x y he
+    unfold Closed at hc
+    rw [← hc]
+    exact Multiset.mem_map.2 ⟨(x, y), he, rfl⟩
+  have hrem : ∀ t ∈ T, (hasNode t a && hasNode t b) = true → t = t1 ∨ t = t2 := by
+    intro t ht hb
+    rcases ce_both_dir hab (hn t ht) hb with hd | hd
+    · exact Or.inl (ce_tri_unique hs ht ht1 ((ce_hasDir_spec (hn t ht) hd).1 _ |>.2 (Or.inl rfl))
+        ((hm1 _).2 (Or.inl rfl)))
+    · exact Or.inr (ce_tri_unique hs ht ht2 ((ce_hasDir_spec (hn t ht) hd).1 _ |>.2 (Or.inl rfl))
+        ((hm2 _).2 (Or.inl rfl)))
+  have hkept : ∀ e, e ∈ heM T → e ∉ heTriM t1 → e ∉ heTriM t2 →
+      ∃ t ∈ T, (hasNode t a && hasNode t b) = false ∧ e ∈ heTriM t := by
+    intro e he n1 n2
+    obtain ⟨t, ht, het⟩ := ce_mem_heM.1 he
+    refine ⟨t, ht, ?_, het⟩
+    by_contra hb
+    rcases hrem t ht (by simpa using hb) with rfl | rfl
+    · exact n1 het
+    · exact n2 het
+  obtain ⟨tc, htc, hkc, hec⟩ := hkept (a, c)
+    (hswap _ _ (ce_mem_heM.2 ⟨t1, ht1, (hm1 _).2 (Or.inr (Or.inr rfl))⟩))
+    (by rw [hm1]; simp only [Prod.mk.injEq]; omega)
+    (by rw [hm2]; simp only [Prod.mk.injEq]; omega)
+  obtain ⟨td, htd, hkd, hed⟩ := hkept (d, a)
+    (hswap _ _ (ce_mem_heM.2 ⟨t2, ht2, (hm2 _).2 (Or.inr (Or.inl rfl))⟩))
+    (by rw [hm1]; simp only [Prod.mk.injEq]; omega)
+    (by rw [hm2]; simp only [Prod.mk.injEq]; omega)
+  ext v
+  rw [ce_mem_vertsF_collapse]
+  simp only [Finset.mem_insert, Finset.mem_erase]
+  constructor
+  · rintro ⟨t, ht, -, u, hu, rfl⟩
+    by_cases hua : u = a ∨ u = b
+    · left
+      rcases hua with rfl | rfl
+      · exact ce_ren_left _ _ _
+      · exact ce_ren_right _ _ _
+    · right
+      have : ren a b i u = u := by simp [ren]; tauto
+      rw [this]
+      refine ⟨fun hh => hua (Or.inr hh), fun hh => hua (Or.inl hh), ce_mem_vertsF.2 ⟨t, ht, hu⟩⟩
+  · rintro (rfl | ⟨hvb, hva, hv⟩)
+    · exact ⟨tc, htc, hkc, a, (ce_he_nodes hec).1, (ce_ren_left _ _ _).symm⟩
+    · have hren : v = ren a b i v := by simp [ren, hva, hvb]
+      obtain ⟨t, ht, htv⟩ := ce_mem_vertsF.1 hv
+      by_cases hb : (hasNode t a && hasNode t b) = true
+      · rcases hrem t ht hb with rfl | rfl
+        · rcases (hv1 v).1 htv with rfl | rfl | rfl
+          · exact absurd rfl hva
+          · exact absurd rfl hvb
+          · exact ⟨tc, htc, hkc, _, (ce_he_nodes hec).2, hren⟩
+        · rcases (hv2 v).1 htv with rfl | rfl | rfl
+          · exact absurd rfl hvb
+          · exact absurd rfl hva
+          · exact ⟨td, htd, hkd, _, (ce_he_nodes hed).1, hren⟩
+      · exact ⟨t, ht, by simpa using hb, v, htv, hren⟩
 
 end Simu.Remesh
